@@ -1004,9 +1004,10 @@ func TestC20Stack(t *testing.T) {
 			}
 		}
 	}
-	ev.Check(t, rec, "discovery", rec.Pick(quickDisc, 3000), genDisc, runDisc)
+	// the enumerated work first: it overlaps with TestC20's rapid search, the rapid searches below queue behind it
 	relayBig()
-	ev.Check(t, rec, "relay", rec.Pick(quickRelay, 20000), genRelay, runRelay)
+	ev.Check(t, rec, "discovery", rec.Pick(quickDisc, 1500), genDisc, runDisc)
+	ev.Check(t, rec, "relay", rec.Pick(quickRelay, 10000), genRelay, runRelay)
 }
 
 const (
